@@ -8,7 +8,7 @@
 //!
 //! The model executes the element tree of `crate::gen::script` (`El`), one element per `step()`.
 //! Everything it does not assert (signature opcodes, reserved opcodes, VERIF/VERNOTIF, index
-//! operands longer than four bytes, ...) is reported as `StepResult::Unmodelled`.
+//! ...) is reported as `StepResult::Unmodelled`.
 use crate::gen::script::El;
 use crate::refimpl::hashes::{hash160, ripemd160, sha1, sha256, sha256d};
 use num_bigint::{BigInt, Sign};
@@ -101,6 +101,19 @@ fn bool_item(b: bool) -> Vec<u8> {
     }
 }
 
+/// some conditional in the elements (any depth) holds a further OP_ELSE in its else branch
+pub fn repeated_else(els: &[El]) -> bool {
+    els.iter().any(|e| match e {
+        El::If { pass, fail, .. } => fail.as_ref().map_or(false, |f| f.iter().any(|x| *x == El::Op(103)) || repeated_else(f)) || repeated_else(pass),
+        _ => false,
+    })
+}
+
+/// the elements cannot be the rest of a balanced script: a stray OP_ELSE / OP_ENDIF at this level, or a repeated OP_ELSE below
+pub fn unbalanced(els: &[El]) -> bool {
+    els.iter().any(|e| matches!(e, El::Op(103) | El::Op(104))) || repeated_else(els)
+}
+
 /// opcodes this model asserts when they appear as `El::Op` (everything else is Unmodelled).
 /// OP_IF / OP_NOTIF are modelled only as `El::If`, not as bare opcodes.
 pub fn is_modelled(op: u8) -> bool {
@@ -152,20 +165,16 @@ fn pop_num(st: &mut Vec<Vec<u8>>) -> BigInt {
     num(&pop(st))
 }
 
-/// The top item used as a small index/size/count operand: longer than 4 bytes is outside the model.
-/// Must be called before the operand is popped.
-fn small_operand_guard(st: &[Vec<u8>], what: &str) -> Result<(), Stop> {
-    let top = st.last().expect("depth checked by need()");
-    if top.len() > 4 {
-        unmodelled(&format!("{} operand longer than 4 bytes", what))
-    } else {
-        Ok(())
-    }
+/// Index, size, position and count operands are script numbers like any other (any length, any padding). Values
+/// beyond the i64 range are clamped: they are out of range for every stack or item anyway.
+fn small_operand_guard(_st: &[Vec<u8>], _what: &str) -> Result<(), Stop> {
+    Ok(())
 }
 
-/// pops a (<= 4 byte) operand as an i64
+/// pops an index / size / count operand as an i64 (clamped)
 fn pop_small(st: &mut Vec<Vec<u8>>) -> i64 {
-    pop_num(st).to_i64().expect("a 4-byte script number fits an i64")
+    let v = pop_num(st);
+    v.to_i64().unwrap_or(if v.is_negative() { i64::MIN } else { i64::MAX })
 }
 
 fn get_bit(x: &[u8], i: usize) -> bool {
@@ -614,7 +623,16 @@ impl Model {
                 self.pc += 1;
                 StepResult::Ok
             }
+            // an OP_ELSE / OP_ENDIF met as an element of its own has no open conditional (or is the second OP_ELSE of
+            // one): the script is unbalanced and fails
+            El::Op(103) | El::Op(104) => StepResult::Fail("unbalanced conditional".to_string()),
             El::Op(op) => {
+                // OP_RETURN inside a branch keeps checking the grammar of what follows (without executing it): when the
+                // rest is unbalanced the outcome depends on whether this OP_RETURN is at the top level, which the
+                // spliced program no longer shows: not asserted
+                if op == 106 && unbalanced(&self.program[self.pc + 1..]) {
+                    return StepResult::Unmodelled("OP_RETURN followed by an unbalanced conditional".to_string());
+                }
                 let r = apply_opcode(op, &mut self.stack, &mut self.alt);
                 if r == StepResult::Ok {
                     if op == 106 {
@@ -627,6 +645,10 @@ impl Model {
             El::If { code, pass, fail } => {
                 if code != 99 && code != 100 {
                     return StepResult::Unmodelled(format!("conditional with opcode {} is not modelled", code));
+                }
+                // a conditional has at most one OP_ELSE: a second one fails the script whether or not its branch runs
+                if repeated_else(std::slice::from_ref(&self.program[self.pc])) {
+                    return StepResult::Fail("a conditional with more than one OP_ELSE".to_string());
                 }
                 let cond = match self.stack.last() {
                     Some(top) => truthy(top),
@@ -984,7 +1006,9 @@ mod tests {
             fail("PICK", "aa bb cc 81"),
             fail("PICK", "e"),
             fail("PICK", ""),
-            unm("PICK", "aa 0000000000"),
+            // index operands are script numbers of any length: 5-byte zero is index 0; 2^32 is out of range
+            ok("PICK", "aa 0000000000", "aa aa"),
+            fail("PICK", "aa 0000000001"),
             // ROLL
             ok("ROLL", "aa bb cc e", "aa bb cc"),
             ok("ROLL", "aa bb cc 01", "aa cc bb"),
@@ -994,7 +1018,8 @@ mod tests {
             fail("ROLL", "aa bb cc 81"),
             fail("ROLL", "01"),
             fail("ROLL", ""),
-            unm("ROLL", "aa 0000000000"),
+            ok("ROLL", "aa 0000000000", "aa"),
+            fail("ROLL", "aa bb 0000000081"),
         ]
     }
 
@@ -1019,7 +1044,8 @@ mod tests {
             fail("SPLIT", "e 01"),
             fail("SPLIT", "aa"),
             fail("SPLIT", ""),
-            unm("SPLIT", "aabb 0100000000"),
+            ok("SPLIT", "aabb 0100000000", "aa bb"),
+            fail("SPLIT", "aabb 0000000001"),
             // NUM2BIN
             ok("NUM2BIN", "02 04", "02000000"),
             ok("NUM2BIN", "82 04", "02000080"),
@@ -1039,7 +1065,7 @@ mod tests {
             fail("NUM2BIN", "01 81"),
             fail("NUM2BIN", "01"),
             fail("NUM2BIN", ""),
-            unm("NUM2BIN", "01 0500000000"),
+            ok("NUM2BIN", "01 0500000000", "0100000000"),
             // BIN2NUM
             ok("BIN2NUM", "0100", "01"),
             ok("BIN2NUM", "0080", "e"),
@@ -1191,7 +1217,10 @@ mod tests {
             fail("LSHIFT", "01 81"),
             fail("LSHIFT", "01"),
             fail("LSHIFT", ""),
-            unm("LSHIFT", "01 0100000000"),
+            ok("LSHIFT", "01 0100000000", "02"),
+            // a count of 2^32 shifts everything out
+            ok("LSHIFT", "ffff 0000000001", "0000"),
+            fail("LSHIFT", "ffff 0000000081"),
             ok("RSHIFT", "80 01", "40"),
             ok("RSHIFT", "ff00 04", "0ff0"),
             ok("RSHIFT", "a5 e", "a5"),
@@ -1203,7 +1232,8 @@ mod tests {
             ok("RSHIFT", "e 01", "e"),
             fail("RSHIFT", "01 81"),
             fail("RSHIFT", "01"),
-            unm("RSHIFT", "01 0100000000"),
+            ok("RSHIFT", "01 0100000000", "00"),
+            ok("RSHIFT", "ffff 0000000001", "0000"),
             // BOOLAND BOOLOR
             ok("BOOLAND", "01 01", "01"),
             ok("BOOLAND", "01 e", "e"),
@@ -1343,8 +1373,12 @@ mod tests {
             unm("100", "01"),
             unm("101", "01"),
             unm("102", "01"),
-            unm("103", "01"),
-            unm("104", "01"),
+            // a stray OP_ELSE / OP_ENDIF has no open conditional: the script fails
+            fail("103", "01"),
+            fail("104", "01"),
+            // a second OP_ELSE in one conditional fails the script whichever branch would run
+            fail("IF( OP_2 )ELSE( OP_3 103 OP_4 )", "01"),
+            fail("IF( OP_2 )ELSE( OP_3 103 OP_4 )", "00"),
             unm("76", "01"),
             unm("77", "01"),
             unm("78", "01"),
@@ -1523,15 +1557,13 @@ mod tests {
         assert_eq!(kind_of(&m.step()), Kind::Unm);
         assert_eq!((m.pc, m.program.len()), (0, 1));
         assert_eq!(m.stack, stack_of("01"));
-        // PICK with a 5-byte index operand (numerically 0)
+        // PICK with a 5-byte index operand (numerically 0) is modelled: it picks the top item
         let mut m = Model::with_stacks(&[El::Op(121)], stack_of("aa 0000000000"), vec![]);
-        assert_eq!(kind_of(&m.step()), Kind::Unm);
-        assert_eq!(m.pc, 0);
-        assert_eq!(m.stack, stack_of("aa 0000000000"));
-        // a lone 5-byte item: "needs 1" is satisfied, so the operand-length rule applies before
-        // the range check
+        assert_eq!(kind_of(&m.step()), Kind::Ok);
+        assert_eq!(m.stack, stack_of("aa aa"));
+        // a lone 5-byte item: index 0 of an empty rest is out of range
         let mut m = Model::with_stacks(&[El::Op(121)], stack_of("0000000000"), vec![]);
-        assert_eq!(kind_of(&m.step()), Kind::Unm);
+        assert_eq!(kind_of(&m.step()), Kind::Fail);
         // NUM2BIN above the resource guard
         let (mut s, mut a) = (stack_of("01 ffffff7f"), vec![]);
         assert_eq!(kind_of(&apply_opcode(128, &mut s, &mut a)), Kind::Unm);
